@@ -328,6 +328,16 @@ def run(repo: Repo, L: Ledger, tier: str):
                     continue
                 if isinstance(par, ast.Attribute) and par.attr in ("close", "flush", "name"):
                     continue
+                # handed to a local (nested) writer function whose only use of it is the formatter call
+                if isinstance(par, ast.Call) and isinstance(par.func, ast.Name) and par.func.id in fn.nested and u in par.args:
+                    inner = fn.nested[par.func.id]
+                    pidx = par.args.index(u)
+                    ips = inner.params()
+                    if pidx < len(ips):
+                        pn = ips[pidx]
+                        iuses = [x for x in walk_shallow(inner.node) if isinstance(x, ast.Name) and x.id == pn and isinstance(x.ctx, ast.Load)]
+                        if iuses and all(isinstance(getattr(x, "_parent", None), ast.Call) and dotted(x._parent.func) == fmt.name and x in x._parent.args for x in iuses):
+                            continue
                 okh = False
                 L.fail("O9", f"{fn.short}:{h}", f"AGP file handle '{h}' is used outside format_agp: {norm(par)[:80]}", fn.loc(u))
             if okh:
